@@ -15,6 +15,7 @@ from irispie.series import arip as AR
 from irispie.series.main import Series
 from contracts.c10_series import mk_series, V, state, RI, row_has_obs
 from contracts.c09_dates import ordinal
+from pyvc.libmodels import MAX_ORD
 
 PC = "irispie.series._conversions:"
 PAR = "irispie.series.arip:"
@@ -62,6 +63,61 @@ def regular_groups_are_calendar_members(K, src, dst, nv):
     t = K.int("t", 1990 * F - 40, 2031 * F + 40)
     K.ensure("every source period of target period new_start+g is a member", K.Implies(K.fdiv(t, factor) == y0 * f + g,
                                                                                         K.And(t >= y0 * F + g * factor, t < y0 * F + (g + 1) * factor)))
+
+
+# ------------------------------------------------------------------------------ groups of daily -> regular aggregation
+@contract("C12", targets=["irispie.dates:RegularPeriodMixin.to_daily", "irispie.dates:RegularPeriodMixin.to_ymd", "irispie.dates:RegularPeriodMixin.to_year_segment"],
+          instances=[(c,) for c in REG])
+def daily_bounds_of_a_target_period(K, dst):
+    """The daily slice _aggregate_daily_to_regular cuts for target period t is [t.to_daily(start), t.to_daily(end)]:
+    proved to be exactly the calendar days of t for every year 1..9999 (first day of the period's first month up
+    to the day before the first day of the next period), against the Gregorian ordinal written independently."""
+    f = int(dst.frequency)
+    mps = 12 // f
+    serial = K.int("t", 1 * f, 9998 * f + f - 1)
+    t = K.obj(dst, serial=serial)
+    y = K.fdiv(serial, f)
+    seg0 = K.mod(serial, f)
+    lo = K.method(t, "to_daily", position="start")
+    hi = K.method(t, "to_daily", position="end")
+    K.ensure("daily periods", K.And(K.cls_of(lo) is D.DailyPeriod, K.cls_of(hi) is D.DailyPeriod))
+    fm = seg0 * mps + 1
+    last_segment = seg0 == f - 1
+    nxt = K.ite(last_segment, ordinal(K, y + 1, 1, 1), ordinal(K, y, K.ite(last_segment, 1, fm + mps), 1)) if K.symbolic else \
+        (ordinal(K, y + 1, 1, 1) if last_segment else ordinal(K, y, fm + mps, 1))
+    K.ensure("first day of the slice is the first calendar day of the period", K.attr(lo, "serial") == ordinal(K, y, fm, 1))
+    K.ensure("last day of the slice is the last calendar day of the period", K.attr(hi, "serial") == nxt - 1)
+
+
+@contract("C12", targets=[PC + "_aggregate_daily_to_regular", "irispie.dates:DailyPeriod.create_soy", "irispie.dates:DailyPeriod.create_eoy", "irispie.dates:Ranger.__init__",
+                          "irispie.series.main:Series.iter_own_data_variants_from_until"],
+          instances=[(c, y) for c in (D.YearlyPeriod, D.HalfyearlyPeriod) for y in (2019, 2000, 1900)],
+          thorough=[(D.QuarterlyPeriod, y) for y in (2019, 2000, 1900)], opts={"max_paths": 3000})
+def daily_groups_are_the_slices_between_those_bounds(K, dst, year):
+    """_aggregate_daily_to_regular on a daily series lying inside one calendar year: one output row per target period
+    of that year, and the group handed to the aggregator for period g is, in order, the days from g.to_daily(start)
+    to g.to_daily(end) (missing outside the data).  Generic projection: member j of the group."""
+    f = int(dst.frequency)
+    # the year is fixed per instance (a common year, a leap year, a century non-leap year): the bounds themselves are
+    # proved for every year by daily_bounds_of_a_target_period; here the point is that the loop uses exactly them
+    jan1 = ordinal(K, year, 1, 1)
+    dec31 = ordinal(K, year + 1, 1, 1) - 1
+    rows = K.int("s_rows", 1, 366, sample=(1, 366))
+    start = K.int("s_start", 366, MAX_ORD - 800)
+    K.assume(K.And(start >= jan1, start + rows - 1 <= dec31))
+    data = K.array("s_data", (rows, 1))
+    K.assume(row_has_obs(K, data, 0, 1))
+    K.assume(row_has_obs(K, data, rows - 1, 1))
+    s = K.obj(Series, start=K.obj(D.DailyPeriod, serial=start), data=data, data_type=np.float64, metadata={}, __description__="")
+    j = K.int("member", 0, 27)          # every target period has at least 28 days
+    picker = K.callable(lambda within: K.index(within, j))
+    new_start, out = K.call(CV._aggregate_daily_to_regular, s, dst, picker)
+    K.ensure("new start is the first target period of the year", K.And(K.cls_of(new_start) is dst, K.attr(new_start, "serial") == year * f))
+    K.ensure("one output row per target period of the year", K.shape(out)[0] == f)
+    for g in range(f):
+        lo = K.attr(K.method(K.obj(dst, serial=year * f + g), "to_daily", position="start"), "serial")
+        K.ensure(f"group {g}: member j is day lo+j of the target period (NaN outside the data)",
+                 K.cell_eq(K.cell(out, g, 0), V(K, start, data, lo + j, 0)))
 
 
 # ------------------------------------------------------------------------------ within-group aggregators and missing values
@@ -354,3 +410,63 @@ def disaggregate_to_daily_native(B):
         if h.data.shape[0] != (start + 1).to_daily(position="end").serial - start.to_daily(position="start").serial + 1:
             B.fail("disaggregate to daily places a value outside its low-frequency period", {"low": low.__name__, "rows": int(h.data.shape[0])})
             return
+
+
+# ------------------------------------------------------------------------------ ARIP: the whole bordered system and its solution
+from contracts.c14_filters import nullspace
+
+
+def _arip_instances():
+    T, F = True, False
+    out = []
+    for agg in AGGS:
+        out += [(agg, 2, (F, F), (T, T, T, T)), (agg, 2, (F, F, F), (T,) * 6), (agg, 4, (F, F), (T,) * 8)]
+    # targets (False = a target value is given): partial coverage of a low period, a fully covered low period, both; a missing low observation
+    out += [("sum", 2, (F, F), (T, F, T, T)), ("mean", 2, (F, F, F), (T, T, F, F, T, T)), ("sum", 4, (F, F), (F, T, T, T, T, F, T, T)),
+            ("last", 2, (F, F, F), (T, T, F, T, F, F)), ("first", 4, (F, F), (T, T, F, T, F, F, F, F)), ("sum", 2, (F, T, F), (T,) * 6),
+            ("mean", 4, (F, F), (T, T, T, F, T, T, T, T))]
+    return out
+
+
+@contract("C12", targets=[PAR + "disaggregate_arip_data", PAR + "_create_basic_system_matrices", PAR + "_detect_full_low_periods", PAR + "_create_aggregation_row",
+                          PAR + "_create_multiplier_column", PAR + "_create_target_row", PAR + "_create_target_column", PAR + "_DiffForm.get_sigma_vector",
+                          PAR + "_DiffForm.get_constant", PAR + "_get_first_last_observations"],
+          instances=_arip_instances(), opts={"max_paths": 400})
+def arip_output_is_the_constrained_minimiser(K, agg, nw, low_pattern, target_pattern):
+    """disaggregate_arip_data (additive model) for a fixed number of low periods and a fixed pattern of observed low
+    values / given high-frequency targets, all VALUES symbolic: the output meets every aggregation constraint of an
+    observed low period that is not fully covered by targets, hits every target exactly, and the gradient of the
+    documented criterion sum_t (x_t - x_{t-1} - c)^2 vanishes along every direction that keeps those constraints
+    (convex problem: this is optimality).  numpy.linalg.solve enters through its assumed contract."""
+    from fractions import Fraction
+    L = len(low_pattern)
+    H = L * nw
+    low = K.array_pattern("low", low_pattern)
+    target = K.array_pattern("target", target_pattern)
+    low0 = K.snapshot(low)
+    low_freq, high_freq = 1, nw
+    out = K.call(AR.disaggregate_arip_data, [low], target, ("diff", agg), L, low_freq, high_freq)
+    out = list(K.items(out))
+    K.ensure("one output vector per variant", len(out) == 1)
+    x = [K.cell(out[0], t) for t in range(H)]
+    K.ensure("one value per high-frequency period, none missing", K.And(K.shape(out[0]) == (H,), *[K.Not(K.cell_is_nan(c)) for c in x]))
+    xv = [K.cell_val(c) for c in x]
+    vec = {"sum": [1] * nw, "mean": [Fraction(1, nw)] * nw, "first": [1] + [0] * (nw - 1), "last": [0] * (nw - 1) + [1]}[agg]
+    targets = [t for t in range(H) if not target_pattern[t]]
+    full = [i for i in range(L) if all(not target_pattern[i * nw + j] for j in range(nw))]
+    constrained = [i for i in range(L) if not low_pattern[i] and i not in full]
+    E = []
+    for i in constrained:
+        K.ensure(f"aggregation constraint of low period {i}", K.real_eq(sum(K.frac(vec[j]) * xv[i * nw + j] for j in range(nw) if vec[j]), K.cell_val(K.cell(low0, i))))
+        E.append([vec[t - i * nw] if i * nw <= t < (i + 1) * nw else 0 for t in range(H)])
+    for t in targets:
+        K.ensure(f"target at high period {t} is hit exactly", K.real_eq(xv[t], K.cell_val(K.cell(target, t))))
+        E.append([1 if s == t else 0 for s in range(H)])
+    # constant of the additive model: average change between the first and last low observation that still constrains
+    obs = constrained
+    c = 0 if len(obs) < 2 else (K.cell_val(K.cell(low0, obs[-1])) - K.cell_val(K.cell(low0, obs[0]))) / (obs[-1] - obs[0]) / nw
+    r = [xv[t + 1] - xv[t] - c for t in range(H - 1)]
+    grad = [(r[t - 1] if t >= 1 else 0) - (r[t] if t < H - 1 else 0) for t in range(H)]
+    for v in nullspace(E, H):
+        K.ensure(f"gradient of the smoothness criterion vanishes along the feasible direction {[str(q) for q in v]}",
+                 K.real_eq(sum(K.frac(q) * g for q, g in zip(v, grad) if q != 0), 0))
